@@ -19,6 +19,7 @@ func propC01(r *Report, tier string) {
 	ruleSegmentIntroducerObsoletes(r, in)
 	ruleIntroducerInternalMap(r, in)
 	ruleSingleRootStore(r, in.Segment, "K5-single-publication")
+	ruleMergeIntroducerRemap(r, in, "K5dep-merge-remap")
 	ruleExclusionAtReadSites(r, "K8-exclusion-at-read-sites")
 	ruleBatchIdsForwarded(r)
 	ruleUpsidedownWriters(r)
